@@ -122,6 +122,19 @@ def gen_case(rng, tier, ctx, i):
                 row[k_] = rng.choice([-3, -1, 1, 3])
             row[0] = int(sum(int(a) * int(x) for a, x in zip(row[1:], flat[0]))) + rng.choice([0, 1])
         p.pop("dtype", None)
+    elif rng.random() < 0.12:
+        # medium magnitudes: coefficients and coordinates of a few thousand (every single number fits 16 bits, the row values pass 2**24): a row met
+        # exactly, or missed by one, must not be rounded
+        flat = numpy.array(pts, dtype=object).reshape(-1, n)
+        for j in range(n):
+            flat[0][j] = rng.choice([-1, 1]) * rng.randint(2048, 32767)
+        pts = flat.reshape(numpy.array(pts, dtype=object).shape).tolist()
+        row = p["M"][0]
+        for k_ in range(1, len(row)):
+            row[k_] = rng.choice([-1, 1]) * rng.randint(2048, 32767)
+        row[0] = int(sum(int(a) * int(x) for a, x in zip(row[1:], flat[0]))) + rng.choice([0, 0, 1, -1])
+        p.pop("dtype", None)
+        ctx.count("count:medium-magnitudes(row values beyond 2^24)")
     case = {"poly": p, "points": pts, "fn": rng.choice(FUNCS), "via": rng.choice(["method", "alias"])}
     if rng.random() < 0.15 and "points_dtype" not in case:
         case["derive"] = rng.getrandbits(32)
